@@ -24,6 +24,7 @@ import (
 	"encoding/json"
 	"errors"
 	"fmt"
+	"io"
 	"os"
 	"path/filepath"
 	"reflect"
@@ -144,7 +145,27 @@ func body(svc *spec.Service, o op, tag string) func(any) any {
 				return "HARNESS: " + berr.Error()
 			}
 		}
-		call := &drv.Call{Reply: drv.ReplyWith(s, m, o.req.Result, o.req.View, serr, &herr)}
+		reply := drv.ReplyWith(s, m, o.req.Result, o.req.View, serr, &herr)
+		streamed := "-"
+		if m.HTTP.SkipReq {
+			// SkipRequestBodyEncodeDecode: the service gets (ctx, payload, body) and reads the
+			// body to the end (an in-memory reader: never blocks) before it answers
+			inner := reply
+			reply = func(method string, args []any) []any {
+				streamed = "missing"
+				if len(args) >= 3 {
+					if rc, ok := args[2].(io.ReadCloser); ok && rc != nil {
+						b, err := io.ReadAll(rc)
+						streamed = fmt.Sprintf("%q", b)
+						if err != nil {
+							streamed += " read-error=" + err.Error()
+						}
+					}
+				}
+				return inner(method, args)
+			}
+		}
+		call := &drv.Call{Reply: reply}
 		var payload any
 		if pt := s.PayloadType(m.Name); pt != nil && m.Payload != nil {
 			rv, err := s.V.New(pt, m.Payload, o.req.Payload)
@@ -152,6 +173,19 @@ func body(svc *spec.Service, o op, tag string) func(any) any {
 				return "HARNESS: cannot build payload: " + err.Error()
 			}
 			payload = rv.Interface()
+		}
+		if m.HTTP.SkipReq {
+			// the client endpoint takes the generated <Method>RequestData{Payload, Body}
+			rt, _ := drv.SymByNorm(syms, "type:"+s.GoMethod(m.Name)+"RequestData").(reflect.Type)
+			if rt == nil {
+				return "HARNESS: no registered RequestData type for " + m.Name
+			}
+			rd := reflect.New(rt)
+			if payload != nil {
+				rd.Elem().FieldByName("Payload").Set(reflect.ValueOf(payload))
+			}
+			rd.Elem().FieldByName("Body").Set(reflect.ValueOf(io.NopCloser(strings.NewReader(o.req.Body))))
+			payload = rd.Interface()
 		}
 		res, cerr := s.InvokeConcurrent(call, m.Name, payload)
 		if herr != nil {
@@ -175,6 +209,9 @@ func body(svc *spec.Service, o op, tag string) func(any) any {
 		fmt.Fprintf(&sb, " | service: invoked=%d", call.Invoked)
 		if call.Invoked > 0 {
 			sb.WriteString(" payload=" + spec.Canon(drv.ReceivedPayload(s, m, call)))
+			if m.HTTP.SkipReq {
+				sb.WriteString(" streamed-body=" + streamed)
+			}
 		}
 		sb.WriteString(" | client: ")
 		switch {
@@ -231,6 +268,10 @@ func class(label string) string {
 		l = l[:i]
 	}
 	switch {
+	case strings.HasPrefix(l, "upload "):
+		return "upload-error"
+	case strings.HasPrefix(l, "upload"):
+		return "upload"
 	case strings.HasPrefix(l, "valid"):
 		return "valid"
 	case strings.HasPrefix(l, "invalid"):
